@@ -19,6 +19,59 @@ ENDERS_TRUE = ("eof", "cut")      # the input really ends
 BEH_OK = ("ok", "errout")
 KNOWN_STEPS = ("s", "t")
 KNOWN_SIGNALS = ("sig",)
+SIGNAL_STEPS = ("s", "t", "z", "o")   # every step of the harness plugin declares the signals sig / stop / two
+# the data schemas of the signals of steps "s" / "t" and the input schemas of steps "z" / "o" (c07_atpsrv.go c07Plugin), as
+# the property's predicate reads them: property -> (type, required).  Zero properties: only a map is acceptable (the empty
+# one); ONE property: a lone non-map value is that property's shorthand; more: "must be a map".
+SIG_SCHEMAS = {"sig": {"n": ("int", True)}, "stop": {}, "two": {"a": ("int", False), "b": ("str", False)}}
+STEP_SCHEMAS = {"z": {}, "o": {"tok": ("int", True)}}
+
+
+def _fits(t, v):
+    """does a scalar property type take the value?  True / False, None = this simple reading does not decide it (nil members,
+    conversions between scalars: the comparison with the model decides those)"""
+    if not isinstance(v, list):
+        return None
+    if v[0] in ("sl", "m"):
+        return False
+    if t == "int" and v[0] == "i":
+        return True
+    if t == "str" and v[0] == "s":
+        return True
+    if t == "int" and v[0] == "s":
+        txt = v[2][1] if isinstance(v[2], tuple) else v[2]
+        return False if not re.match(r"^\s*[-+0-9.]", txt) and txt != "" else None
+    return None
+
+
+def payload_accepts(props, v):
+    """Unserialize + Validate of an object schema with these properties on a payload, by the rules of the property text's
+    "wrongly typed payloads": True / False / None (undecided, see _fits)"""
+    if isinstance(v, list) and v and v[0] == "m":
+        seen = {}
+        for k, val in v[3:]:
+            if not (isinstance(k, list) and k[0] == "s"):
+                return False
+            name = k[2][1] if isinstance(k[2], tuple) else k[2]
+            if name not in props:
+                return False
+            seen[name] = val
+        ok = True
+        for name, (t, req) in props.items():
+            if name not in seen:
+                if req:
+                    return False
+                continue
+            r = _fits(t, seen[name])
+            if r is False:
+                return False
+            if r is None:
+                ok = None
+        return ok
+    if len(props) != 1:
+        return False
+    (name, (t, req)), = props.items()
+    return _fits(t, v)
 
 
 # ------------------------------------------------------------------------------------------
@@ -59,7 +112,9 @@ def script_facts(case):
     closeout = any(_head(a) == "closeout" for a in actions)
     facts = {"burst": any(a == "burst" for a in actions), "closeout": closeout, "cancel": any(_head(a) == "cancel" for a in actions), "ender": None,
              "accepted": [], "owed": {}, "errors": [], "handshake": False, "all_finish": True, "n_actions": len(actions),
-             "slow_after_end": False, "invalid": 0, "truncated": any(_head(a) == "cut" for a in actions)}
+             "slow_after_end": False, "invalid": 0, "truncated": any(_head(a) == "cut" for a in actions),
+             "undetermined": False, "payload_actions": sum(1 for a in actions if _head(a) in ("sigv", "wsv")),
+             "payload_zero_prop_nonmap": 0}
     first = True
     reading = True
     running = {}      # run id -> step id (runningSteps)
@@ -133,12 +188,48 @@ def script_facts(case):
             elif run not in running:
                 errors.append((run, 0, 0))
                 facts["invalid"] += 1
-            elif not (running[run] in KNOWN_STEPS and a[2][1] in KNOWN_SIGNALS and a[3] == "1"):
+            elif not (running[run] in SIGNAL_STEPS and a[2][1] in KNOWN_SIGNALS and a[3] == "1"):
                 errors.append((run, 0, 0))
                 facts["invalid"] += 1
         elif h == "sigbad":
             errors.append((_run(a[1]), 0, 0))
             facts["invalid"] += 1
+        elif h == "sigv":
+            run, sg = _run(a[1]), a[2][1]
+            if run == "":
+                errors.append(("", 0, 0))
+                facts["invalid"] += 1
+            elif run not in running:
+                errors.append((run, 0, 0))
+                facts["invalid"] += 1
+            elif running[run] in SIGNAL_STEPS and sg in SIG_SCHEMAS:
+                acc = payload_accepts(SIG_SCHEMAS[sg], a[3])
+                if not SIG_SCHEMAS[sg] and not (isinstance(a[3], list) and a[3][0] == "m"):
+                    facts["payload_zero_prop_nonmap"] += 1
+                if acc is None:
+                    facts["undetermined"] = True
+                elif not acc:
+                    errors.append((run, 0, 0))
+                    facts["invalid"] += 1
+            else:
+                errors.append((run, 0, 0))
+                facts["invalid"] += 1
+        elif h == "wsv":
+            run, step, tok, v = _run(a[1]), a[2][1], int(a[3]), a[4]
+            if run == "" or step == "":
+                errors.append(("", 1, 0))
+                facts["invalid"] += 1
+                continue
+            running[run] = step
+            acc = payload_accepts(STEP_SCHEMAS[step], v) if step in STEP_SCHEMAS else False
+            if step in STEP_SCHEMAS and not STEP_SCHEMAS[step] and not (isinstance(v, list) and v[0] == "m"):
+                facts["payload_zero_prop_nonmap"] += 1
+            facts["accepted"].append({"run": run, "tok": tok, "beh": "payload:" + step, "slow": False, "finishes": True})
+            owed[run] = owed.get(run, 0) + 1
+            if acc is None:
+                facts["undetermined"] = True
+            elif not acc:
+                errors.append((run, 1, 0))
         elif h == "unk":
             errors.append(("", 0, 0))
             facts["invalid"] += 1
@@ -172,7 +263,7 @@ def _describe(case):
 def atpsrv_direct(case, obs):
     what = _describe(case)
     if obs == "crash":
-        return ("the server process died (a panic outside recover: send on closed channel / nil dereference) "
+        return ("the server process died (a panic outside recover: send on closed channel / nil dereference / a panic below CallSignal) "
                 "under the client script " + what + " (if the script leaves the server running, the harness then ends the "
                 "input and releases every blocked step before it takes the next case: the crash may have happened there)")
     if obs == "panic":
@@ -190,7 +281,7 @@ def atpsrv_direct(case, obs):
     if f["ender"] in ("eof", "cut", "done") and f["all_finish"] and outcome != "returned":
         return ("input has ended and every started step has finished, but RunATPServer has not returned "
                 "(blocked for ever) under the client script " + what)
-    if f["closeout"]:
+    if f["closeout"] or f["undetermined"]:
         return None
     # while its output is open: exactly one terminal message per accepted (and finished) work-start
     term = {}
@@ -267,6 +358,11 @@ def atpsrv_stats(rows):
         flags["closeout"] += f["closeout"]
         flags[">3 reports (channel capacity)"] += len(f["errors"]) > 3
         flags["handshake fault"] += (not f["handshake"])
+        flags["scripts with payload actions (sigv / wsv)"] = flags.get("scripts with payload actions (sigv / wsv)", 0) + (f["payload_actions"] > 0)
+        flags["non-map payloads for a ZERO-property data / input schema"] = \
+            flags.get("non-map payloads for a ZERO-property data / input schema", 0) + f["payload_zero_prop_nonmap"]
+        flags["payload verdict left to the model (scalar conversions, nil members)"] = \
+            flags.get("payload verdict left to the model (scalar conversions, nil members)", 0) + f["undetermined"]
         flags["burst (no waiting between the actions)"] = flags.get("burst (no waiting between the actions)", 0) + f["burst"]
         # non-trivial: at least one accepted work-start AND (an event that ends reading, or an invalid message)
         if f["accepted"] and (f["ender"] is not None or f["invalid"]):
@@ -279,7 +375,10 @@ def atpsrv_stats(rows):
             "exhaustive": "1 work-start x 6 behaviours x {known, unknown step} x 7 ways of ending x {fast, released before, "
                           "released after, never released}; 2 work-starts x 5x5 behaviours x 3 enders x 4 completion orders; "
                           "12 invalid-message kinds x 1..8 repetitions x {-, cancel, closeout}; every byte offset of the "
-                          "transcripts of the truncation bases"}
+                          "transcripts of the truncation bases; signals {stop: no property, sig: one, two: two optional, "
+                          "unknown} x 21 payload shapes (no data field, nil, strings, integers, lists, maps: empty / fitting / "
+                          "unknown key / wrong member type / non-string key) x {run in progress on step s, on step t, finished + "
+                          "unknown run}; steps {z: no input property, o: one, unknown} x the same 21 shapes as config"}
 
 
 # ------------------------------------------------------------------------------------------
@@ -449,7 +548,9 @@ def register(props):
         "engines": [atpsrv_engine],
         "rule": "atpsrv: client scripts (start, work-starts with scripted behaviour ok / declared error output / undeclared output / "
                 "invalid data / panic / rejected input, fast or blocked on a harness gate, unknown step ids, duplicate / missing / "
-                "omitted run ids, wrongly typed payloads, signals with known / unknown id, run and data, unknown message ids, "
+                "omitted run ids, wrongly typed payloads, signals with known / unknown id, run and data, PAYLOAD MATRIX (signal data "
+                "schemas and step input schemas with zero / one / two properties x no data field, nil, strings, integers, lists, "
+                "maps of every shape; accept / reject computed by the schema model Schema/Ops.v in the interpreter), unknown message ids, "
                 "client-done, four kinds of undecodable bytes, end of input, cancel, closing the output, release of a blocked step "
                 "before / after / never relative to the end of input) run one action at a time against the real RunATPServer with "
                 "quiescence detection in between (every third seeded script also as a BURST: no waiting, the goroutines race freely; "
